@@ -221,6 +221,23 @@ def inprocess(chk, scenarios):
                               {"scenario": sc, "files": files, "order": order})
             if not expect_stop and sc["cls"] == "none" and err is not None:
                 raise MachineryError(f"valid in-process build failed: {err}")
+    # the same glyph name twice where the later row has NO codepoints (a hand-written or generated glyph map): ambiguous all
+    # the same, at every position among valid rows and in every format family that places artwork by glyph
+    for k, fmt in enumerate(["glyf_colr_1", "picosvg", "untouchedsvg", "glyf_colr_0", "glyf"]):
+        cfg = build.base_config(color_format=fmt)
+        valid = [build.Src(f"src/emoji_u1f6{10 + i:02d}.svg", _valid(i)) for i in range(2)]
+        first = build.Src("src/emoji_u1f600.svg", _valid(5))
+        dup = build.Src("src/extra.svg", _valid(6), cps=(), glyph_name=first.glyph_name)
+        orders = [[first, dup] + valid, valid[:1] + [first] + valid[1:] + [dup], [dup, first] + valid]
+        srcs = orders[k % 3]
+        chk.case(key=("inproc-dupname-unmapped", fmt), nontrivial=True)
+        done += 1
+        try:
+            build.build(cfg, srcs)
+            chk.violation(f"in-process: two glyph-map rows named {first.glyph_name!r} (the other one without codepoints) in {fmt} produced a font",
+                          {"format": fmt, "rows": [(s2.filename, s2.glyph_name, list(s2.cps)) for s2 in srcs]})
+        except Exception:
+            pass
     chk.notes["inprocess_scenarios"] = done
 
 
